@@ -890,6 +890,21 @@ func c07Chain(c *Ctx, info *types.Info, ems []*Emission) {
 		{"inBandResizeEvents", "inBandResize", [][]string{{fin('t'), "CSI.Parameters[0][0]==48"}}, "DECSET 2048", "CSI 48;... t"},
 		{"appID", "osc176", [][]string{{"+strings.HasPrefix(string(OSC.Payload), \"176\")"}}, "OSC 176", "OSC 176 reply"},
 	}
+	// a post site whose context the guard keys do not recognise is judged by effect (c07k.go): handleSequence is
+	// evaluated over a grid of concrete sequences and the events it posts are compared with the reference decoding
+	var grid *c07kGridResult
+	byEffect := func(ev string, pos token.Pos) (bool, string) {
+		if sq := c.P.Func("vaxis.(*Vaxis).sendQueries"); sq != nil && pos >= sq.Decl.Pos() && pos <= sq.Decl.End() {
+			return false, ""
+		}
+		if grid == nil {
+			grid = c07kGrid(c)
+		}
+		if grid.why != "" || grid.bad[ev] != "" || grid.hit[ev] == 0 {
+			return false, grid.bad[ev]
+		}
+		return true, fmt.Sprintf("decided by evaluating handleSequence on %d concrete sequences around the reply forms and the constants of the decoder: %s is posted for its reply (%d of them) and for no other sequence", grid.runs, ev, grid.hit[ev])
+	}
 	for _, l := range links {
 		// event sets exactly its flag
 		flags := evCaps[l.ev]
@@ -917,12 +932,26 @@ func c07Chain(c *Ctx, info *types.Info, ems []*Emission) {
 			key := fmt.Sprintf("vaxis.(*Vaxis).handleSequence/%s posted only for its reply (%s)", l.ev, l.comment)
 			if okCtx {
 				c.ok("C07.c", key, p.pos, "context %v", p.gk)
+			} else if good, how := byEffect(l.ev, p.pos); good {
+				c.ok("C07.c", key, p.pos, "context %v is not a guard-key form of the reply; %s", p.gk, how)
 			} else {
-				c.bad("C07.c", key, p.pos, "capability event %s is posted in context %v, which is not the reply %s: another reply establishes this capability", l.ev, p.gk, l.comment)
+				if how != "" {
+					how = " (" + how + ")"
+				}
+				c.bad("C07.c", key, p.pos, "capability event %s is posted in context %v, which is not the reply %s: another reply establishes this capability%s", l.ev, p.gk, l.comment, how)
 			}
 		}
 		if n == 0 {
-			c.bad("C07.c", fmt.Sprintf("vaxis.(*Vaxis).handleSequence/%s posted", l.ev), hs.Decl.Pos(), "no reply posts %s: the capability can never be established", l.ev)
+			key := fmt.Sprintf("vaxis.(*Vaxis).handleSequence/%s posted", l.ev)
+			if good, how := byEffect(l.ev, hs.Decl.Pos()); good {
+				c.ok("C07.c", key, hs.Decl.Pos(), "no post site names %s; %s", l.ev, how)
+			} else {
+				if how != "" {
+					c.bad("C07.c", key, hs.Decl.Pos(), "no post site names %s, and by evaluation over concrete sequences it is not posted exactly for its reply (%s): %s", l.ev, l.comment, how)
+				} else {
+					c.bad("C07.c", key, hs.Decl.Pos(), "no reply posts %s: the capability can never be established", l.ev)
+				}
+			}
 		}
 	}
 }
